@@ -906,8 +906,11 @@ def _quote_host(host):
     unreserved and sub-delims ones need to be percent encoded lest they be
     taken for delimiters or escapes when the URI is parsed again."""
     if ":" in host or "[" in host:
+        # Brackets only count in pairs: "[::1" is no more an address than
+        # "::1]", and passing such a value on verbatim yields no usable URI
+        bracketed = host.startswith("[") and host.endswith("]")
         try:
-            ipaddress.IPv6Address(host.removeprefix("[").removesuffix("]"))
+            ipaddress.IPv6Address(host[1:-1] if bracketed else host)
         except ValueError:
             pass
         else:
